@@ -203,9 +203,58 @@ def run(rep, tier, root=None):
         # the returned name must be bound to the loop's left-hand expression after the loop
         ret_expr = defs.get(rtxt, rtxt).replace("(", "").replace(")", "")
         ok = rhs == fa.params[0] and ret_expr == lhs
-    rep.check(ok, "S6.allowed-size", fa.fq + ": returns the first 2^n + 1 that is not smaller than the request",
-              "cannot establish result >= requested size from `while %s` / `return %s`" % (norm_text(wl[0].test) if wl else "?",
-                                                                                           norm_text(rets[0].value) if rets else "?"), fa.where())
+    if not ok:
+        # the same argument on normal forms, through helper functions: some loop (in the function or a helper it calls) is left
+        # with `not (L < request)` and the returned value is that L
+        Iw = Interp(ix)
+        req = Rat.sym(fa.params[0], ("int",))
+        try:
+            rvals = [v for c_, v in Iw.returns(fa, [req]) if isinstance(v, Rat)]
+        except AnalysisError:
+            rvals = []
+        exits, other_loops = [], []
+        for fq_, ln_, t_ in getattr(Iw, "while_exit_log", []):
+            ta = t_.single_atom() if isinstance(t_, Rat) else None
+            if isinstance(ta, Fn) and ta.name == "cmp" and ta.args[0] in ("<", "<=") and isinstance(ta.args[1], Rat) and \
+                    isinstance(ta.args[2], Rat) and same_value(ta.args[2], req):
+                exits.append(ta.args[1])
+            else:
+                other_loops.append(t_)
+        ok = len(rvals) == 1 and any(same_value(rvals[0], l_) for l_ in exits)
+        if not ok and not exits and other_loops:
+            # a search loop whose exit does not say `candidate >= request`: the bound cannot be established from it
+            exits = [None]
+        if not ok and not exits and len(rvals) == 1:
+            # a closed form: 2 ** E + 1 >= request  iff  E >= log2(request - 1); of the roundings of log2(request - 1) only ceil is
+            # never below it
+            la = find_atoms(rvals[0], lambda a: isinstance(a, Fn) and a.name in ("log2", "log"))
+            rnd = find_atoms(rvals[0], lambda a: isinstance(a, Fn) and a.name in ("round", "rint", "floor", "int", "trunc", "fix", "floordiv", "ceil")
+                             and any(isinstance(x, Rat) and x.has_atom(lambda b: isinstance(b, Fn) and b.name in ("log2", "log")) for x in a.args))
+            if la and rnd:
+                outer = max(rnd, key=lambda a: len(repr(a)))
+                names = set(a.name for a in rnd)
+                if names <= {"ceil", "int"} and "ceil" in names:
+                    arg_ok = any(same_value(a.args[0], req - 1) or
+                                 (isinstance(a.args[0].single_atom(), Fn) and a.args[0].single_atom().name == "maximum" and
+                                  any(same_value(q, req - 1) for q in a.args[0].single_atom().args if isinstance(q, Rat))) for a in la)
+                    want = Rat.atom(Fn("pow", (Rat.const(2), Rat.atom(outer)))) + 1
+                    ok = arg_ok and same_value(rvals[0], want)
+                    exits = [None]
+                else:
+                    rep.violation("S6.allowed-size", fa.fq + ": returns the first 2^n + 1 that is not smaller than the request",
+                                  "the exponent is log2(request - 1) rounded by %s: it can be rounded down, and 2^n + 1 is then smaller than "
+                                  "the requested size (e.g. a request just above 2^n + 1)" % "/".join(sorted(names - {"int"}) or ["int"]), fa.where())
+                    ok = None
+                    exits = [None]
+        if not ok and not exits:
+            rep.unknown("S6.allowed-size", fa.fq + ": returns the first 2^n + 1 that is not smaller than the request",
+                        "no loop of the form `while <candidate> < request` found in %s or its helpers: the search is written in a way "
+                        "the rule cannot read" % fa.name, fa.where())
+            ok = None
+    if ok is not None:
+        rep.check(ok, "S6.allowed-size", fa.fq + ": returns the first 2^n + 1 that is not smaller than the request",
+                  "cannot establish result >= requested size from `while %s` / `return %s`" % (norm_text(wl[0].test) if wl else "?",
+                                                                                               norm_text(rets[0].value) if rets else "?"), fa.where())
     # the recursion stays bounded only if A and B are those of the theoretical covariance: a covariance evaluated in single
     # precision gives, for pixel_scale << L0, an A with spectral radius > 1 although the Cholesky test on Cov_zz passes
     from ..common import narrowing_casts
